@@ -278,6 +278,9 @@ class BaseReader:
 
     def _read_data(self, offset, n, /, use_dask=False, **kwargs):
         """Read n samples from current read position into array-like."""
+        # ``chunks`` describes the Dask container, it is not an argument of the read
+        chunks = kwargs.pop("chunks", None)
+
         if use_dask:
             import dask
             import dask.array as da
@@ -290,7 +293,7 @@ class BaseReader:
 
             auto = "auto" if n else -1  # dask cannot auto-chunk an empty array
             default_chunks = (-1,) + (auto,) * len(self.sample_shape)
-            z = z.rechunk(kwargs.get("chunks", default_chunks))
+            z = z.rechunk(default_chunks if chunks is None else chunks)
         else:
             z = self._read_array(offset, n, **kwargs)
 
